@@ -60,6 +60,23 @@ if _slow:
             acquired, code, fd = _Base.__enter__(self)
             return acquired, code, (_SlowFile(fd) if fd is not None else None)
     MC_GeoPHIRES3.Locker = _SlowLocker
+_prel = os.environ.get('GXV_MC_PRELUDE')
+if _prel:
+    # history: an earlier Monte Carlo request in this same process, on the same base-input path with other content (and a '#'
+    # mean taken from it); its files are removed and the base input rewritten before the run under test
+    import glob
+    P = json.load(open(_prel))
+    open(sys.argv[3], 'w').write(P['base'])
+    open(sys.argv[4] + '.prelude', 'w').write(P['settings'])
+    try:
+        MC_GeoPHIRES3.main(command_line_args=[sys.argv[2], sys.argv[3], sys.argv[4] + '.prelude', sys.argv[5]])
+    except BaseException:
+        pass
+    for f in glob.glob(os.path.splitext(sys.argv[5])[0] + '*'):
+        os.remove(f)
+    if _succ and os.path.exists(_succ):
+        os.remove(_succ)
+    open(sys.argv[3], 'w').write(P['real_base'])
 res = {'ok': True}
 try:
     MC_GeoPHIRES3.main(command_line_args=sys.argv[2:])
@@ -165,6 +182,17 @@ def run_mc(s, workdir, timeout=900):
     env['GXV_MC_SUCCESS_LOG'] = succ
     if s.get('slow_writes'):
         env['GXV_MC_SLOW_WRITES'] = '%d,%d' % tuple(s['slow_writes'])
+    env.pop('GXV_MC_PRELUDE', None)
+    if s.get('prelude'):
+        real = base_text(s)
+        pname, pval = s['prelude']
+        lines = [(f'{pname}, {pval}' if ln.split(',')[0].strip() == pname else ln) for ln in real.split('\n')]
+        anchor = 'Reservoir Temperature' if s['program'] == 'HIP' else 'Gradient 1'
+        pj = os.path.join(workdir, 'prelude.json')
+        with open(pj, 'w') as f:
+            json.dump({'base': '\n'.join(lines), 'real_base': real,
+                       'settings': f'INPUT, {anchor}, normal, #, 0.5\n' + ''.join(f'OUTPUT, {o}\n' for o in s['outputs']) + 'ITERATIONS, 2\n'}, f)
+        env['GXV_MC_PRELUDE'] = pj
     pr = subprocess.run([sys.executable, '-c', RUNNER % {'src': SRC_DIR}, str(s['workers']), code, base, sett, out], cwd=workdir,
                         env=env, capture_output=True, text=True, timeout=timeout)
     res = {'ok': False, 'error': 'no result line (rc=%s) %s' % (pr.returncode, pr.stderr[-300:])}
